@@ -89,8 +89,8 @@ BOUND = {
     'up to depth 3 (<= 259 sequences each); units: 2 pulses x 13 cascades (0-5 choppers, equal distances, chopper at 0 m) x 16 representations; completed',
     'thorough': '7 pulses x 5 distances x 22 patterns (1 chopper); 6 pulses x all 15 distance pairs x 19^2 patterns (2 choppers); 4 pulses x 6 ladders x 6^3 '
     '(3 choppers); 3 pulses x 2 ladders x 4^4 (4 choppers); 2 pulses x 2 ladders x 3^5 (5 choppers); same program family; '
-    'histories: 4 pulses x 6 bases x all sequences of 6 operations up to depth 4 (<= 1555 sequences each); units: quick set + every 1-chopper '
-    'configuration x 16 representations + 2 pulses x 15 pairs x 13^2 patterns x 5 key representations + 3 ladders x 3^3 x 16 + 3^5 x 5; completed',
+    'histories: 4 pulses x 6 bases x all sequences of 6 operations up to depth 4 (<= 1555 sequences each); units: quick set + 4 pulses x every 1-chopper '
+    'configuration x 16 representations + 15 pairs x 13^2 patterns x 3 key representations + 2 pulses x 3 ladders x 3^3 x 16 + 3^5 x 5; completed',
 }
 REQUIRED_CLASSES = [
     'cut_const_lambda_edge_open',
@@ -1205,6 +1205,7 @@ REPS = {
 }
 REP_DEFAULT = {'cd': 'm', 'qd': ['m'], 'tw': 's', 'pt': 'ms', 'pl': 'angstrom'}
 REPS_KEY = ['cm', 'mm', 'query_cm_mm', 'int_mm', 'pulse_us_nm']
+REPS_PAIRS = ['cm', 'int_mm', 'pulse_us_nm']
 
 UNIT_CASCADES = [
     [],
@@ -1234,18 +1235,17 @@ def unit_cases(tier):
             for rname in REPS:
                 add(pu, chops, rname)
     if tier == 'thorough':
-        pulses = [p for p in PULSES if p != 'odd']
-        for pu in [*pulses, 'odd']:
+        for pu in ['wide', 'ess', 'narrow', 'ess12']:
             for d in DISTANCES:
                 for p in P_ALL + P_EXTRA:
                     for rname in REPS:
                         add(pu, [(d, p)], rname)
         pairs = [(a, b) for i, a in enumerate(DISTANCES) for b in DISTANCES[i:]]
-        for pu in ['ess', 'wide12']:
+        for pu in ['ess']:
             for a, b in pairs:
                 for p1 in P_QUICK2:
                     for p2 in P_QUICK2:
-                        for rname in REPS_KEY:
+                        for rname in REPS_PAIRS:
                             add(pu, [(a, p1), (b, p2)], rname)
         for pu in ['ess', 'wide12']:
             for lad in [(6.3, 10.0, 23.7), (0.0, 10.0, 10.0), (6.3, 6.3, 6.3)]:
